@@ -144,3 +144,28 @@ pub fn list_files(dir: &Path) -> Vec<PathBuf> {
     out.sort();
     out
 }
+
+/// Feed `script` to `ucg repl` on stdin (one statement per line, as a user would type it).
+/// Returns stdout and stderr merged line-wise is not possible; both are returned.
+pub fn run_repl(script: &str, env: Vec<(String, String)>, strict: bool, cwd: &Path, home: &Path) -> RunOut {
+    // through a shell so that stdout and stderr arrive interleaved as the user would see them
+    let mut args: Vec<String> = vec!["-c".into(), "exec \"$0\" \"$@\" 2>&1".into(), ucg_bin().to_string_lossy().into_owned()];
+    if !strict {
+        args.push("--no-strict".into());
+    }
+    args.push("repl".into());
+    run_program(Path::new("/bin/sh"), &Cmd { args, cwd, env, home, timeout: Duration::from_secs(60), stdin: Some(script.as_bytes().to_vec()) })
+}
+
+/// The lines a repl session printed for the user's statements (history / EOF chatter removed).
+pub fn repl_lines(r: &RunOut) -> Vec<String> {
+    let mut out = vec![];
+    for l in r.stdout.lines() {
+        let low = l.to_lowercase();
+        if low.contains("history") || low.contains("eof") || l.trim().is_empty() {
+            continue;
+        }
+        out.push(l.to_string());
+    }
+    out
+}
